@@ -52,17 +52,33 @@ theorem prepR_lt (r : Nat) (it : TraceItem) : (prepR r it).2 < 65536 := by
 
 /-! ### the plain fragment -/
 
-/-- events outside the fragment: platform commands, drum mode, macro tracks (pan envelope on),
-pitch envelope on; notes outside the MDSDRV range (the writer refuses them) -/
+/-- events outside the fragment: platform commands, macro tracks (pan envelope on), pitch envelope
+on; notes outside the MDSDRV range (the writer refuses them; in drum mode the same range is the
+oracle's domain for routine numbers) -/
 def SimpleEv (e : Event) : Prop :=
-  e.type ≠ ev_PLATFORM ∧ e.type ≠ ev_DRUM_MODE ∧ (e.type = ev_PAN_ENVELOPE → e.param = 0) ∧
+  e.type ≠ ev_PLATFORM ∧ (e.type = ev_PAN_ENVELOPE → e.param = 0) ∧
   (e.type = ev_NOTE → 0 ≤ e.param ∧ e.param < 94) ∧ (e.type = ev_PITCH_ENVELOPE → e.param = 0)
 
-/-- what a shown hook call pushes, where that is a function of the event -/
-def detBody (it : TraceItem) : Option (List MEv) :=
+/-- the writer's drum-mode state after an event -/
+def dAfter (d : Bool) (it : TraceItem) : Bool :=
+  if it.ev.type = ev_DRUM_MODE then decide (it.ev.param ≠ 0) else d
+
+def dAfterL (d : Bool) : List TraceItem → Bool
+  | [] => d
+  | it :: its => dAfterL (dAfter d it) its
+
+theorem dAfterL_append (d : Bool) (a b : List TraceItem) : dAfterL d (a ++ b) = dAfterL (dAfterL d a) b := by
+  induction a generalizing d with
+  | nil => rfl
+  | cons x a ih => simp [dAfterL, ih]
+
+/-- what a shown hook call pushes, where that is a function of the event and of the writer's
+drum-mode state `d` -/
+def detBody (d : Bool) (it : TraceItem) : Option (List MEv) :=
   let p := it.ev.param
   if it.ev.type = ev_TIE then some [⟨mds_TIE, u16 it.on⟩]
-  else if it.ev.type = ev_NOTE then (if 0 ≤ p ∧ p < 94 then some [⟨mds_NOTE + p.toNat, u16 it.on⟩] else none)
+  else if it.ev.type = ev_NOTE then
+    (if d = true then none else if 0 ≤ p ∧ p < 94 then some [⟨mds_NOTE + p.toNat, u16 it.on⟩] else none)
   else if it.ev.type = ev_LOOP_START then some [⟨mds_LP, 0⟩]
   else if it.ev.type = ev_LOOP_BREAK then some [⟨mds_LPB, 0⟩]
   else if it.ev.type = ev_LOOP_END then some [⟨mds_LPF, u16 p⟩]
@@ -82,55 +98,74 @@ def detBody (it : TraceItem) : Option (List MEv) :=
   else if it.ev.type = ev_PAN_ENVELOPE then (if p = 0 then some [⟨mds_MTAB, 0⟩] else none)
   else if it.ev.type = ev_PITCH_ENVELOPE then (if p = 0 then some [⟨mds_PEG, 0⟩] else none)
   else if it.ev.type = ev_PORTAMENTO then some [⟨mds_PTA, u16 p⟩]
-  else if it.ev.type = ev_DRUM_MODE then none
+  else if it.ev.type = ev_DRUM_MODE then some [⟨mds_FLG, if p ≠ 0 then 8 else 0⟩]
   else if it.ev.type = ev_TEMPO then some [⟨mds_TEMPO, u16 p⟩]
   else some []
 
-/-- what a shown hook call pushes; `m` = the subroutine map in which a call's index is looked up -/
-inductive Body (m : List (Int × Nat)) (it : TraceItem) : List MEv → Prop
-  | det {ms : List MEv} : detBody it = some ms → Body m it ms
-  | jump {k : Nat} : it.ev.type = ev_JUMP → (subKey it.ev.param false false, k) ∈ m → Body m it [⟨mds_PAT, u16 (k : Int)⟩]
-  | ins {ty i : Nat} : it.ev.type = ev_INS → (ty = mds_INS ∨ ty = mds_PCM) → Body m it [⟨ty, u16 (i : Int)⟩]
+/-- what a shown hook call pushes; `m` = the subroutine map in which the index of a call or of a
+drum routine is looked up, `d` = the writer's drum-mode state -/
+inductive Body (m : List (Int × Nat)) (d : Bool) (it : TraceItem) : List MEv → Prop
+  | det {ms : List MEv} : detBody d it = some ms → Body m d it ms
+  | jump {k : Nat} : it.ev.type = ev_JUMP → (subKey it.ev.param false d, k) ∈ m → Body m d it [⟨mds_PAT, u16 (k : Int)⟩]
+  | ins {ty i : Nat} : it.ev.type = ev_INS → (ty = mds_INS ∨ ty = mds_PCM) → Body m d it [⟨ty, u16 (i : Int)⟩]
+  /-- a note in drum mode: the note byte carries the index of the routine -/
+  | dnote {k q : Nat} : it.ev.type = ev_NOTE → d = true → (subKey it.ev.param true false, k) ∈ m →
+      (q : Int) = (if wrap16 (k : Int) < 0 then 0 else wrap16 (k : Int)) → q < 94 →
+      Body m d it [⟨mds_NOTE + q, u16 it.on⟩]
 
-theorem Body.mono {m m' : List (Int × Nat)} (hm : ∀ p ∈ m, p ∈ m') {it : TraceItem} {ms : List MEv} (h : Body m it ms) :
-    Body m' it ms := by
+theorem Body.mono {m m' : List (Int × Nat)} (hm : ∀ p ∈ m, p ∈ m') {d : Bool} {it : TraceItem} {ms : List MEv}
+    (h : Body m d it ms) : Body m' d it ms := by
   cases h with
   | det h => exact .det h
   | jump h1 h2 => exact .jump h1 (hm _ h2)
   | ins h1 h2 => exact .ins h1 h2
+  | dnote h1 h2 h3 h4 h5 => exact .dnote h1 h2 (hm _ h3) h4 h5
 
-/-- the writer's event list for a list of shown hook calls: pending rest `r`, loop point seen `g` -/
-inductive Emits (m : List (Int × Nat)) : Nat → Bool → List TraceItem → List MEv → Nat → Bool → Prop
-  | nil (r : Nat) (g : Bool) : Emits m r g [] [] r g
-  | cons {r : Nat} {g : Bool} {it : TraceItem} {its : List TraceItem} {b ms : List MEv} {r' : Nat} {g' : Bool} :
-      Body m it b → Emits m (prepR r it).2 (g || it.ev.type == ev_SEGNO) its ms r' g' →
-      Emits m r g (it :: its) ((prepR r it).1 ++ b ++ ms) r' g'
+/-- the writer's event list for a list of shown hook calls: drum-mode state `d`, pending rest `r`,
+loop point seen `g` -/
+inductive Emits (m : List (Int × Nat)) : Bool → Nat → Bool → List TraceItem → List MEv → Nat → Bool → Prop
+  | nil (d : Bool) (r : Nat) (g : Bool) : Emits m d r g [] [] r g
+  | cons {d : Bool} {r : Nat} {g : Bool} {it : TraceItem} {its : List TraceItem} {b ms : List MEv} {r' : Nat} {g' : Bool} :
+      Body m d it b → Emits m (dAfter d it) (prepR r it).2 (g || it.ev.type == ev_SEGNO) its ms r' g' →
+      Emits m d r g (it :: its) ((prepR r it).1 ++ b ++ ms) r' g'
 
-theorem Emits.mono {m m' : List (Int × Nat)} (hm : ∀ p ∈ m, p ∈ m') {r : Nat} {g : Bool} {its : List TraceItem}
-    {ms : List MEv} {r' : Nat} {g' : Bool} (h : Emits m r g its ms r' g') : Emits m' r g its ms r' g' := by
+theorem Emits.mono {m m' : List (Int × Nat)} (hm : ∀ p ∈ m, p ∈ m') {d : Bool} {r : Nat} {g : Bool} {its : List TraceItem}
+    {ms : List MEv} {r' : Nat} {g' : Bool} (h : Emits m d r g its ms r' g') : Emits m' d r g its ms r' g' := by
   induction h with
-  | nil r g => exact .nil r g
+  | nil d r g => exact .nil d r g
   | cons hb _ ih => exact .cons (hb.mono hm) ih
+
+/-- the writer state after a shown hook call that pushed `ms` -/
+def pushed (w : WState) (it : TraceItem) (ms : List MEv) : WState :=
+  { w with out := w.out ++ ms, inLoop := w.inLoop || (it.ev.type == ev_SEGNO), drumEnabled := dAfter w.drumEnabled it }
 
 set_option hygiene false in
 /-- a branch of `hookVis` that pushes one event determined by the hook's event -/
 macro "det_case" : tactic => `(tactic| (
   simp only [Option.some.injEq] at h
   subst h
-  simp +decide [Mds.push, t, u16]
+  simp +decide [Mds.push, t, u16, dAfter]
   try rfl))
 
 theorem hookVis_det {song : Song} {d : DataInfo} {n : Nat} {c : Conv} {w : WState} {it : TraceItem} {ms : List MEv}
-    (hd : w.drumEnabled = false) (hi : w.inDrum = false) (h : detBody it = some ms) :
-    hookVis song d n c w it = .ok (c, { w with out := w.out ++ ms, inLoop := w.inLoop || (it.ev.type == ev_SEGNO) }) := by
+    (hi : w.inDrum = false ∨ it.ev.type ≠ ev_NOTE) (h : detBody w.drumEnabled it = some ms) :
+    hookVis song d n c w it = .ok (c, pushed w it ms) := by
   unfold detBody at h
-  unfold hookVis
+  unfold hookVis pushed
   simp only at h
   by_cases t : it.ev.type = ev_TIE
   · rw [if_pos t] at h ⊢; det_case
   rw [if_neg t] at h ⊢; clear t
   by_cases t : it.ev.type = ev_NOTE
   · rw [if_pos t] at h ⊢
+    have hi' : w.inDrum = false := by
+      rcases hi with hi | hi
+      · exact hi
+      · exact absurd t hi
+    by_cases hd : w.drumEnabled = true
+    · rw [if_pos hd] at h; cases h
+    rw [if_neg hd] at h
+    have hd' : w.drumEnabled = false := by simpa using hd
     by_cases hp : 0 ≤ it.ev.param ∧ it.ev.param < 94
     · rw [if_pos hp] at h
       simp only [Option.some.injEq] at h
@@ -141,7 +176,7 @@ theorem hookVis_det {song : Song} {d : DataInfo} {n : Nat} {c : Conv} {w : WStat
         rw [this]; omega
       have h3 : (mds_NOTE + it.ev.param.toNat) % 256 = mds_NOTE + it.ev.param.toNat := by
         show (130 + it.ev.param.toNat) % 256 = 130 + it.ev.param.toNat; omega
-      simp +decide [hd, hi, h1, h2, Mds.push, h3, t, u16]
+      simp +decide [hd', hi', h1, h2, Mds.push, h3, t, u16, dAfter]
     · rw [if_neg hp] at h; cases h
   rw [if_neg t] at h ⊢; clear t
   by_cases t : it.ev.type = ev_LOOP_START
@@ -177,7 +212,8 @@ theorem hookVis_det {song : Song} {d : DataInfo} {n : Nat} {c : Conv} {w : WStat
   · rw [if_pos t] at h ⊢
     simp only [Option.some.injEq] at h
     subst h
-    simp +decide [Mds.push, tS, u16]
+    have nd : ¬ it.ev.type = ev_DRUM_MODE := by rcases t with t | t <;> (rw [t]; decide)
+    simp +decide [Mds.push, tS, u16, dAfter, nd]
   rw [if_neg t] at h ⊢; clear t
   by_cases t : it.ev.type = ev_TEMPO_BPM
   · rw [if_pos t] at h ⊢; det_case
@@ -219,29 +255,36 @@ theorem hookVis_det {song : Song} {d : DataInfo} {n : Nat} {c : Conv} {w : WStat
   · rw [if_pos t] at h ⊢; det_case
   rw [if_neg t] at h ⊢; clear t
   by_cases t : it.ev.type = ev_DRUM_MODE
-  · rw [if_pos t] at h; cases h
-  rw [if_neg t] at h ⊢; clear t
+  · rw [if_pos t] at h ⊢
+    simp only [Option.some.injEq] at h
+    subst h
+    by_cases hp : it.ev.param ≠ 0 <;> simp +decide [Mds.push, t, u16, dAfter, hp]
+  rw [if_neg t] at h ⊢
+  have tD := t; clear t
   by_cases t : it.ev.type = ev_TEMPO
   · rw [if_pos t] at h ⊢; det_case
   rw [if_neg t] at h ⊢; clear t
   simp only [Option.some.injEq] at h
   subst h
-  simp [tS]
+  simp [tS, dAfter, tD]
 
 set_option hygiene false in
 macro "skip_some" : tactic => `(tactic| (rw [if_pos t] at h; cases h))
 
-/-- outside `detBody`: calls, instruments -/
-theorem detBody_none {it : TraceItem} (hs : SimpleEv it.ev) (h : detBody it = none) :
-    it.ev.type = ev_JUMP ∨ it.ev.type = ev_INS := by
-  obtain ⟨s1, s2, s3, s4, s5⟩ := hs
+/-- outside `detBody`: calls, instruments, notes in drum mode -/
+theorem detBody_none {d : Bool} {it : TraceItem} (hs : SimpleEv it.ev) (h : detBody d it = none) :
+    it.ev.type = ev_JUMP ∨ it.ev.type = ev_INS ∨ (it.ev.type = ev_NOTE ∧ d = true) := by
+  obtain ⟨s1, s3, s4, s5⟩ := hs
   unfold detBody at h
   simp only at h
   by_cases t : it.ev.type = ev_TIE
   · skip_some
   rw [if_neg t] at h; clear t
   by_cases t : it.ev.type = ev_NOTE
-  · rw [if_pos t, if_pos (s4 t)] at h; cases h
+  · rw [if_pos t] at h
+    by_cases hd : d = true
+    · exact .inr (.inr ⟨t, hd⟩)
+    · rw [if_neg hd, if_pos (s4 t)] at h; cases h
   rw [if_neg t] at h; clear t
   by_cases t : it.ev.type = ev_LOOP_START
   · skip_some
@@ -275,7 +318,7 @@ theorem detBody_none {it : TraceItem} (hs : SimpleEv it.ev) (h : detBody it = no
   · skip_some
   rw [if_neg t] at h; clear t
   by_cases t : it.ev.type = ev_INS
-  · exact .inr t
+  · exact .inr (.inl t)
   rw [if_neg t] at h; clear t
   by_cases t : it.ev.type = ev_TRANSPOSE
   · skip_some
@@ -298,7 +341,9 @@ theorem detBody_none {it : TraceItem} (hs : SimpleEv it.ev) (h : detBody it = no
   by_cases t : it.ev.type = ev_PORTAMENTO
   · skip_some
   rw [if_neg t] at h; clear t
-  rw [if_neg s2] at h
+  by_cases t : it.ev.type = ev_DRUM_MODE
+  · skip_some
+  rw [if_neg t] at h; clear t
   by_cases t : it.ev.type = ev_TEMPO
   · skip_some
   rw [if_neg t] at h; clear t
@@ -365,31 +410,49 @@ theorem hookVis_peg {song : Song} {d : DataInfo} {n : Nat} {c : Conv} {w : WStat
     if_neg (show ¬ it.ev.type = ev_PAN_ENVELOPE by rw [t]; decide), if_pos t, if_pos hp]
   rfl
 
-/-- the writer state after a shown hook call that pushed `ms` -/
-def pushed (w : WState) (it : TraceItem) (ms : List MEv) : WState :=
-  { w with out := w.out ++ ms, inLoop := w.inLoop || (it.ev.type == ev_SEGNO) }
+theorem hookVis_note {song : Song} {d : DataInfo} {n : Nat} {c : Conv} {w : WState} {it : TraceItem}
+    (t : it.ev.type = ev_NOTE) :
+    hookVis song d n c w it =
+      match (if w.drumEnabled then
+          match getSubroutine song d n c it.ev.param true false with
+          | .error x => .error x
+          | .ok (c', id) => .ok (c', wrap16 id)
+        else (.ok (c, it.ev.param) : Except WErr (Conv × Int))) with
+      | .error x => .error x
+      | .ok (c, param) =>
+        let param := if param < 0 then 0 else param
+        if w.inDrum then
+          if param > 255 then .error .noteRange
+          else .ok (c, { (Mds.push w mds_DMFINISH param) with disabled := true })
+        else if param ≥ (mds_SLR - mds_NOTE : Nat) then .error .noteRange
+        else .ok (c, Mds.push w (mds_NOTE + param.toNat) it.on) := by
+  unfold hookVis
+  rw [if_neg (show ¬ it.ev.type = ev_TIE by rw [t]; decide), if_pos t]
+  rfl
 
-theorem push_eq (w : WState) (it : TraceItem) (ty : Nat) (arg : Int) (hty : ty < 256) (hs : it.ev.type ≠ ev_SEGNO) :
+theorem push_eq (w : WState) (it : TraceItem) (ty : Nat) (arg : Int) (hty : ty < 256) (hs : it.ev.type ≠ ev_SEGNO)
+    (hd : it.ev.type ≠ ev_DRUM_MODE) :
     Mds.push w ty arg = pushed w it [⟨ty, u16 arg⟩] := by
   have : (it.ev.type == ev_SEGNO) = false := by simpa using hs
-  simp [Mds.push, pushed, this, Nat.mod_eq_of_lt hty]
+  simp [Mds.push, pushed, this, Nat.mod_eq_of_lt hty, dAfter, hd]
 
-/-- **one shown hook call of the plain fragment** -/
+/-- **one shown hook call of the fragment** (a writer that is not a drum routine's, or an event
+that is not a note) -/
 theorem hookVis_simple {song : Song} {d : DataInfo} (hpc : PlatformClean d) {n : Nat} {c c' : Conv} {w w' : WState}
-    {it : TraceItem} {L : List (List MEv)} {P : Pend} (hs : SimpleEv it.ev) (hd : w.drumEnabled = false)
-    (hi : w.inDrum = false) (hinv : Inv song d c (w.out :: L) P)
+    {it : TraceItem} {L : List (List MEv)} {P : Pend} (hs : SimpleEv it.ev)
+    (hi : w.inDrum = false ∨ it.ev.type ≠ ev_NOTE) (hinv : Inv song d c (w.out :: L) P)
     (h : hookVis song d n c w it = .ok (c', w')) :
-    ∃ ms, Body c'.subMap it ms ∧ w' = pushed w it ms := by
-  cases hb : detBody it with
+    ∃ ms, Body c'.subMap w.drumEnabled it ms ∧ w' = pushed w it ms := by
+  cases hb : detBody w.drumEnabled it with
   | some ms =>
-    rw [hookVis_det hd hi hb] at h
+    rw [hookVis_det hi hb] at h
     simp only [Except.ok.injEq, Prod.mk.injEq] at h
     obtain ⟨rfl, rfl⟩ := h
     exact ⟨ms, .det hb, rfl⟩
   | none =>
-    rcases detBody_none hs hb with t | t
-    · rw [hookVis_jump t, hd] at h
-      cases hg : getSubroutine song d n c it.ev.param false false with
+    rcases detBody_none hs hb with t | t | ⟨t, hd⟩
+    · rw [hookVis_jump t] at h
+      cases hg : getSubroutine song d n c it.ev.param false w.drumEnabled with
       | error x => rw [hg] at h; cases h
       | ok p =>
         obtain ⟨c2, id⟩ := p
@@ -397,7 +460,7 @@ theorem hookVis_simple {song : Song} {d : DataInfo} (hpc : PlatformClean d) {n :
         simp only [Except.ok.injEq, Prod.mk.injEq] at h
         obtain ⟨rfl, rfl⟩ := h
         obtain ⟨k, rfl, _, hmem, _, _⟩ := (writerInv hpc n).sub c _ _ _ c2 id (w.out :: L) P hinv hg
-        exact ⟨_, .jump t hmem, push_eq w it mds_PAT _ (by decide) (by rw [t]; decide)⟩
+        exact ⟨_, .jump t hmem, push_eq w it mds_PAT _ (by decide) (by rw [t]; decide) (by rw [t]; decide)⟩
     · rw [hookVis_ins t] at h
       cases hc : checkInstrument d w.trackId it.ev.param with
       | error x => rw [hc] at h; cases h
@@ -414,11 +477,42 @@ theorem hookVis_simple {song : Song} {d : DataInfo} (hpc : PlatformClean d) {n :
             · simp only [if_pos hpcm, Except.ok.injEq, Prod.mk.injEq] at h
               obtain ⟨rfl, rfl⟩ := h
               exact ⟨_, .ins (i := (getEnvelope c idx).2) t (.inl rfl),
-                push_eq w it mds_INS _ (by decide) (by rw [t]; decide)⟩
+                push_eq w it mds_INS _ (by decide) (by rw [t]; decide) (by rw [t]; decide)⟩
             · simp only [if_neg hpcm, Except.ok.injEq, Prod.mk.injEq] at h
               obtain ⟨rfl, rfl⟩ := h
               exact ⟨_, .ins (i := (getEnvelope c (0x20000 + idx)).2) t (.inr rfl),
-                push_eq w it mds_PCM _ (by decide) (by rw [t]; decide)⟩
+                push_eq w it mds_PCM _ (by decide) (by rw [t]; decide) (by rw [t]; decide)⟩
+    · -- a note in drum mode
+      have hi' : w.inDrum = false := by
+        rcases hi with hi | hi
+        · exact hi
+        · exact absurd t hi
+      rw [hookVis_note t, hd] at h
+      simp only [if_true] at h
+      cases hg : getSubroutine song d n c it.ev.param true false with
+      | error x => rw [hg] at h; cases h
+      | ok p =>
+        obtain ⟨c2, id⟩ := p
+        rw [hg] at h
+        simp only [hi', Bool.false_eq_true, if_false] at h
+        obtain ⟨k, rfl, _, hmem, _, _⟩ := (writerInv hpc n).sub c _ _ _ c2 _ (w.out :: L) P hinv hg
+        by_cases hr : (if wrap16 (k : Int) < 0 then 0 else wrap16 (k : Int)) ≥ ((mds_SLR - mds_NOTE : Nat) : Int)
+        · rw [if_pos hr] at h; cases h
+        · rw [if_neg hr] at h
+          simp only [Except.ok.injEq, Prod.mk.injEq] at h
+          obtain ⟨rfl, rfl⟩ := h
+          have h94 : ((mds_SLR - mds_NOTE : Nat) : Int) = 94 := by decide
+          rw [h94] at hr
+          obtain ⟨q, hq⟩ : ∃ q : Nat, (q : Int) = (if wrap16 (k : Int) < 0 then 0 else wrap16 (k : Int)) :=
+            ⟨(if wrap16 (k : Int) < 0 then 0 else wrap16 (k : Int)).toNat, by split <;> omega⟩
+          have hq94 : q < 94 := by omega
+          refine ⟨_, .dnote (k := k) (q := q) t hd hmem hq hq94, ?_⟩
+          have e1 : (if wrap16 (k : Int) < 0 then 0 else wrap16 (k : Int)).toNat = q := by rw [← hq]; simp
+          rw [e1]
+          have hm : (mds_NOTE + q) % 256 = mds_NOTE + q := by show (130 + q) % 256 = 130 + q; omega
+          have hns : (it.ev.type == ev_SEGNO) = false := by rw [t]; decide
+          have hnd : ¬ it.ev.type = ev_DRUM_MODE := by rw [t]; decide
+          simp [Mds.push, pushed, hm, hns, dAfter, hnd]
 
 /-- a hook call inside a repeated loop pass or inside a call changes nothing -/
 theorem hook_hidden {song : Song} {d : DataInfo} {n : Nat} {c c' : Conv} {w w' : WState} {it : TraceItem}
@@ -432,10 +526,8 @@ theorem hook_hidden {song : Song} {d : DataInfo} {n : Nat} {c c' : Conv} {w w' :
 
 /-! ### the writer along a recorded run -/
 
-/-- the part of the writer state that the plain fragment never touches -/
+/-- the part of the writer state that stays as it is -/
 structure WS (w : WState) : Prop where
-  drumOff : w.drumEnabled = false
-  inDrumOff : w.inDrum = false
   notDisabled : w.disabled = false
   restLt : w.restTime < 65536
 
@@ -508,19 +600,23 @@ theorem run_emits {d : DataInfo} (hpc : PlatformClean d) (fuel : Nat) :
     ∀ (k : Nat) (c0 cE : Core) (rs : List Rec), stepsV song root k c0 = .ok (cE, rs) → (∀ r ∈ rs, isRoot r.1 = false) →
     (∀ it ∈ visItems rs, SimpleEv it.ev) →
     ∀ (steps : Nat) (c : Conv) (w : WState) (a : Acc) (cF : Conv) (wF : WState) (L : List (List MEv)) (P : Pend),
-      a.enabled = true → WS w → Inv song d c (w.out :: L) P →
+      a.enabled = true → WS w → (w.inDrum = false ∨ ∀ it ∈ visItems rs, it.ev.type ≠ ev_NOTE) →
+      Inv song d c (w.out :: L) P →
       runWriter song d root (fuel + 1) steps c w ⟨c0, a⟩ = .ok (cF, wF) →
       ∃ (m : Nat) (c1 : Conv) (w1 : WState) (a1 : Acc) (ms : List MEv), steps = k + m ∧
-        Emits c1.subMap w.restTime w.inLoop (visItems rs) ms w1.restTime w1.inLoop ∧ w1.out = w.out ++ ms ∧ WS w1 ∧
-        w1.trackId = w.trackId ∧ SubMono c c1 ∧ Inv song d c1 (w1.out :: L) P ∧ a1.enabled = true ∧
+        Emits c1.subMap w.drumEnabled w.restTime w.inLoop (visItems rs) ms w1.restTime w1.inLoop ∧
+        w1.out = w.out ++ ms ∧ WS w1 ∧
+        w1.trackId = w.trackId ∧ w1.inDrum = w.inDrum ∧ w1.drumEnabled = dAfterL w.drumEnabled (visItems rs) ∧
+        SubMono c c1 ∧ Inv song d c1 (w1.out :: L) P ∧ a1.enabled = true ∧
         (T a1, a1.loopPlayTime) = timeFold (T a) a.loopPlayTime (rs.map (·.1)) ∧
         runWriter song d root (fuel + 1) m c1 w1 ⟨cE, a1⟩ = .ok (cF, wF)
-  | 0, c0, cE, rs, hk, _, _, steps, c, w, a, cF, wF, L, P, hen, hws, hinv, h => by
+  | 0, c0, cE, rs, hk, _, _, steps, c, w, a, cF, wF, L, P, hen, hws, _, hinv, h => by
     simp only [stepsV, Except.ok.injEq, Prod.mk.injEq] at hk
     obtain ⟨rfl, rfl⟩ := hk
-    exact ⟨steps, c, w, a, [], by omega, by simpa [visItems_nil] using Emits.nil _ _, by simp, hws, rfl, SubMono.refl c,
+    exact ⟨steps, c, w, a, [], by omega, by simpa [visItems_nil] using Emits.nil _ _ _, by simp, hws, rfl, rfl,
+      by simp [visItems_nil, dAfterL], SubMono.refl c,
       by simpa using hinv, hen, by simp [timeFold], h⟩
-  | k + 1, c0, cE, rs, hk, hno, hsim, steps, c, w, a, cF, wF, L, P, hen, hws, hinv, h => by
+  | k + 1, c0, cE, rs, hk, hno, hsim, steps, c, w, a, cF, wF, L, P, hen, hws, hin, hinv, h => by
     simp only [stepsV] at hk
     cases h1 : coreStep song root c0 with
     | error e => rw [h1] at hk; cases hk
@@ -552,11 +648,12 @@ theorem run_emits {d : DataInfo} (hpc : PlatformClean d) (fuel : Nat) :
           | rootEnd f => simp [isRoot] at ho
           | ret f =>
             simp only [itemOfRec, Option.map_none] at h
-            obtain ⟨m, c1, w1, a1, ms, hm, he, hout, hws1, htid, hmono, hinv1, hen1, htime, hrun⟩ :=
+            obtain ⟨m, c1, w1, a1, ms, hm, he, hout, hws1, htid, hind, hdr, hmono, hinv1, hen1, htime, hrun⟩ :=
               run_emits hpc fuel k c1' c2 rs' h2 hno' (by rw [visItems_cons_ret] at hsim; exact hsim)
-                steps c w a' cF wF L P (hen'.trans hen) hws hinv h
-            refine ⟨m, c1, w1, a1, ms, by omega, ?_, hout, hws1, htid, hmono, hinv1, hen1, ?_, hrun⟩
+                steps c w a' cF wF L P (hen'.trans hen) hws (by rw [visItems_cons_ret] at hin; exact hin) hinv h
+            refine ⟨m, c1, w1, a1, ms, by omega, ?_, hout, hws1, htid, hind, ?_, hmono, hinv1, hen1, ?_, hrun⟩
             · rw [visItems_cons_ret]; exact he
+            · rw [visItems_cons_ret]; exact hdr
             · rw [htf]; exact htime
           | hook v f =>
             obtain ⟨it, hit⟩ : ∃ it : TraceItem, it = recItem v f (hookStack c0 c1' (.hook v f)) := ⟨_, rfl⟩
@@ -584,7 +681,7 @@ theorem run_emits {d : DataInfo} (hpc : PlatformClean d) (fuel : Nat) :
                     simp [recItem, tItem, hvis.1, hvis.2]
                   have hcons : visItems ((Out.hook v f, hookStack c0 c1' (.hook v f)) :: rs') = it :: visItems rs' := by
                     rw [visItems_cons_hook, if_pos hvis, hitem]; rfl
-                  rw [hcons] at hsim ⊢
+                  rw [hcons] at hsim hin ⊢
                   have hse : SimpleEv it.ev := hsim it (by simp)
                   have hh' := hh
                   rw [hook_succ_eq, if_neg hsh, prep_eq] at hh'
@@ -594,22 +691,35 @@ theorem run_emits {d : DataInfo} (hpc : PlatformClean d) (fuel : Nat) :
                   have hinvp : Inv song d c (wp.out :: L) P := by
                     rw [hwp]
                     exact inv_add hinv _ (fun ev hev => scoped_of_plain (plain_of_rest (prepR_rest _ _ ev hev)) _ _ _)
-                  obtain ⟨b, hbody, hw'⟩ := hookVis_simple hpc hse (by rw [hwp]; exact hws.drumOff) (by rw [hwp]; exact hws.inDrumOff)
-                    hinvp hh'
+                  have hi0 : wp.inDrum = false ∨ it.ev.type ≠ ev_NOTE := by
+                    rcases hin with hin | hin
+                    · left; rw [hwp]; exact hin
+                    · right; exact hin it (by simp)
+                  obtain ⟨b, hbody, hw'⟩ := hookVis_simple hpc hse hi0 hinvp hh'
+                  have hbody' : Body c'.subMap w.drumEnabled it b := by
+                    have : wp.drumEnabled = w.drumEnabled := by rw [hwp]
+                    rw [this] at hbody; exact hbody
                   obtain ⟨hinv', hmono'⟩ := (writerInv hpc (n + 1)).hook c w it c' w' L P hinv hh
                   have hws' : WS w' := by
                     rw [hw', hwp]
-                    exact ⟨hws.drumOff, hws.inDrumOff, hws.notDisabled, prepR_lt _ _⟩
-                  obtain ⟨m, c1, w1, a1, ms, hm, he, hout, hws1, htid, hmono, hinv1, hen1, htime, hrun⟩ :=
+                    exact ⟨hws.notDisabled, prepR_lt _ _⟩
+                  have hind' : w'.inDrum = w.inDrum := by rw [hw', hwp]; rfl
+                  have hdr' : w'.drumEnabled = dAfter w.drumEnabled it := by rw [hw', hwp]; rfl
+                  obtain ⟨m, c1, w1, a1, ms, hm, he, hout, hws1, htid, hind, hdr, hmono, hinv1, hen1, htime, hrun⟩ :=
                     run_emits hpc (n + 1) k c1' c2 rs' h2 hno' (fun x hx => hsim x (List.mem_cons_of_mem _ hx))
-                      steps c' w' a' cF wF L P (hen'.trans hen) hws' hinv' h
+                      steps c' w' a' cF wF L P (hen'.trans hen) hws'
+                      (by
+                        rcases hin with hin | hin
+                        · left; rw [hind']; exact hin
+                        · right; exact fun x hx => hin x (List.mem_cons_of_mem _ hx)) hinv' h
                   have hr' : w'.restTime = (prepR w.restTime it).2 := by rw [hw', hwp]; rfl
                   have hg' : w'.inLoop = (w.inLoop || it.ev.type == ev_SEGNO) := by rw [hw', hwp]; rfl
                   have ho' : w'.out = w.out ++ (prepR w.restTime it).1 ++ b := by rw [hw', hwp]; rfl
-                  rw [hr', hg'] at he
+                  rw [hr', hg', hdr'] at he
                   refine ⟨m, c1, w1, a1, (prepR w.restTime it).1 ++ b ++ ms, by omega,
-                    .cons (hbody.mono hmono.1) he, by rw [hout, ho']; simp [List.append_assoc], hws1,
-                    by rw [htid, hw', hwp]; rfl, hmono'.trans hmono, hinv1, hen1, ?_, hrun⟩
+                    .cons (hbody'.mono hmono.1) he, by rw [hout, ho']; simp [List.append_assoc], hws1,
+                    by rw [htid, hw', hwp]; rfl, hind.trans hind', by rw [hdr, hdr']; rfl,
+                    hmono'.trans hmono, hinv1, hen1, ?_, hrun⟩
                   rw [htf]; exact htime
                 · -- hidden
                   have hvf : vis (hookStack c0 c1' (.hook v f)) = false := by simpa using hvis
@@ -620,10 +730,11 @@ theorem run_emits {d : DataInfo} (hpc : PlatformClean d) (fuel : Nat) :
                   obtain ⟨rfl, rfl⟩ := hook_hidden hsh hh
                   have hcons : visItems ((Out.hook v f, hookStack c0 c1' (.hook v f)) :: rs') = visItems rs' := by
                     rw [visItems_cons_hook, hvf]; rfl
-                  rw [hcons] at hsim ⊢
-                  obtain ⟨m, c1, w1, a1, ms, hm, he, hout, hws1, htid, hmono, hinv1, hen1, htime, hrun⟩ :=
-                    run_emits hpc (n + 1) k c1' c2 rs' h2 hno' hsim steps c' w' a' cF wF L P (hen'.trans hen) hws hinv h
-                  exact ⟨m, c1, w1, a1, ms, by omega, he, hout, hws1, htid, hmono, hinv1, hen1, by rw [htf]; exact htime, hrun⟩
+                  rw [hcons] at hsim hin ⊢
+                  obtain ⟨m, c1, w1, a1, ms, hm, he, hout, hws1, htid, hind, hdr, hmono, hinv1, hen1, htime, hrun⟩ :=
+                    run_emits hpc (n + 1) k c1' c2 rs' h2 hno' hsim steps c' w' a' cF wF L P (hen'.trans hen) hws hin hinv h
+                  exact ⟨m, c1, w1, a1, ms, by omega, he, hout, hws1, htid, hind, hdr, hmono, hinv1, hen1,
+                    by rw [htf]; exact htime, hrun⟩
 
 /-- the step at the end of the track: `end_hook` flushes the pending rest and pushes the terminator -/
 theorem run_finish {d : DataInfo} (fuel m : Nat) (c1 : Conv) (w1 : WState) (a1 : Acc) (cF : Conv) (wF : WState)
@@ -661,9 +772,9 @@ then the terminator — `JUMP` when a loop point was seen and the loop section t
 theorem writer_flat {d : DataInfo} (hpc : PlatformClean d) (hne : SongNoEnd song) (hr : NoEnd root)
     (ht : BracketsTimeless root) {items : List Item} (hperf : perf song root = .ok items)
     (hsimple : ∀ e ∈ root, SimpleEv e) (fuel steps : Nat) (c : Conv) (w : WState) (cF : Conv) (wF : WState)
-    (L : List (List MEv)) (P : Pend) (hws : WS w) (hinv : Inv song d c (w.out :: L) P)
+    (L : List (List MEv)) (P : Pend) (hws : WS w) (hind : w.inDrum = false) (hinv : Inv song d c (w.out :: L) P)
     (h : runWriter song d root (fuel + 1) steps c w initState = .ok (cF, wF)) :
-    ∃ ms r g, Emits cF.subMap w.restTime w.inLoop (root.map fun e => tItem e e) ms r g ∧ r < 65536 ∧
+    ∃ ms r g, Emits cF.subMap w.drumEnabled w.restTime w.inLoop (root.map fun e => tItem e e) ms r g ∧ r < 65536 ∧
       wF.out = w.out ++ ms ++ flushL r ++
         [⟨if g = true ∧ (totalDur items : Int) ≠ toInt (loopTime items) then mds_JUMP else mds_FINISH, 0⟩] ∧
       SubMono c cF ∧ Inv song d cF (wF.out :: L) P := by
@@ -672,8 +783,8 @@ theorem writer_flat {d : DataInfo} (hpc : PlatformClean d) (hne : SongNoEnd song
     rw [hvis]; intro it hit
     obtain ⟨e, he, rfl⟩ := List.mem_map.mp hit
     exact hsimple e he
-  obtain ⟨m, c1, w1, a1, ms, _, he, hout, hws1, _, hmono, _, hen1, htime, hrun⟩ :=
-    run_emits song root hpc fuel k _ _ rs hk hno hsim steps c w {} cF wF L P rfl hws hinv h
+  obtain ⟨m, c1, w1, a1, ms, _, he, hout, hws1, _, _, _, hmono, _, hen1, htime, hrun⟩ :=
+    run_emits song root hpc fuel k _ _ rs hk hno hsim steps c w {} cF wF L P rfl hws (.inl hind) hinv h
   obtain ⟨rfl, hwF⟩ := run_finish song root fuel m c1 w1 a1 cF wF hen1 hws1 hrun
   have hcode := codesNoEnd_of song root hne hr
   have hok := stepsCore_outOK song root hcode k _ _ _ (stepsV_core song root k _ _ rs hk)
@@ -696,6 +807,95 @@ theorem writer_flat {d : DataInfo} (hpc : PlatformClean d) (hne : SongNoEnd song
   rw [hu]
   congr 4
   split <;> rfl
+
+/-- **the writer of a drum routine**: the track is a forest `fpre` without notes followed by a note;
+the writer is run with `in_drum_mode` set.  The event list is `Emits` of the events before the
+note, what is flushed in front of the note, and `DMFINISH` with the note number — and the writer
+disables itself there: nothing behind the first note is converted, no terminator is written -/
+theorem writer_routine {d : DataInfo} (hpc : PlatformClean d) (hne : SongNoEnd song) (fpre : List Node) (note : Event)
+    (post : List Event) (hroot : root = flattenL fpre ++ note :: post) (hcl : closedL fpre)
+    (hbt : BracketsTimeless (flattenL fpre)) {items : List Item}
+    (hexp : Expand.expL (callK song limit) 0 false fpre = .ok items)
+    (hnote : note.type = ev_NOTE) (hp : 0 ≤ note.param ∧ note.param < 94)
+    (hsimple : ∀ e ∈ flattenL fpre, SimpleEv e) (hnn : ∀ e ∈ flattenL fpre, e.type ≠ ev_NOTE)
+    (fuel steps : Nat) (c : Conv) (w : WState) (cF : Conv) (wF : WState)
+    (L : List (List MEv)) (P : Pend) (hws : WS w) (hind : w.inDrum = true)
+    (hdr : dAfterL w.drumEnabled ((flattenL fpre).map fun e => tItem e e) = false)
+    (hinv : Inv song d c (w.out :: L) P)
+    (h : runWriter song d root (fuel + 1) steps c w initState = .ok (cF, wF)) :
+    ∃ ms r g, Emits cF.subMap w.drumEnabled w.restTime w.inLoop ((flattenL fpre).map fun e => tItem e e) ms r g ∧
+      r < 65536 ∧
+      wF.out = w.out ++ ms ++ (prepR r (tItem note note)).1 ++ [⟨mds_DMFINISH, u16 note.param⟩] ∧
+      SubMono c cF ∧ Inv song d cF (wF.out :: L) P := by
+  have hcode : codeOf song root .root = [] ++ flattenL fpre ++ (note :: post) := by simp [codeOf, hroot]
+  obtain ⟨rs, ⟨k, hk, hno⟩, _, hvis⟩ := vL song root (callK song limit) limit (vcallK_spec song root hne limit) fpre hcl []
+    (note :: post) .root [] false items hcode (by intro fr r h; cases h) (by simp) (by simpa using hexp)
+  have hv0 : vis ([] : List Frame) = true := rfl
+  rw [hv0, if_pos rfl, visL_flat fpre hcl hbt] at hvis
+  simp only [List.length_nil, Nat.zero_add] at hk
+  have hsim : ∀ it ∈ visItems rs, SimpleEv it.ev := by
+    rw [hvis]; intro it hit
+    obtain ⟨e, he, rfl⟩ := List.mem_map.mp hit
+    exact hsimple e he
+  have hin : w.inDrum = false ∨ ∀ it ∈ visItems rs, it.ev.type ≠ ev_NOTE := by
+    right; rw [hvis]; intro it hit
+    obtain ⟨e, he, rfl⟩ := List.mem_map.mp hit
+    exact hnn e he
+  obtain ⟨m, c1, w1, a1, ms, _, he, hout, hws1, _, hind1, hdr1, hmono, hinv1, hen1, _, hrun⟩ :=
+    run_emits song root hpc fuel k _ _ rs hk hno hsim steps c w {} cF wF L P rfl hws hin hinv h
+  rw [hvis] at he hdr1
+  rw [hdr] at hdr1
+  rw [hind] at hind1
+  -- the hook call of the note
+  have hc : (codeOf song root .root)[(flattenL fpre).length]? = some note := by
+    rw [hcode]; simp
+  have hkind : note.kind = .other := by unfold Event.kind kindOfType; simp +decide [hnote]
+  have hstep := step_other song root (σ := []) hc (Or.inr hkind)
+  cases m with
+  | zero => simp [runWriter] at hrun
+  | succ m =>
+    obtain ⟨a', hst, hen', _, _⟩ := stepTrace_nonroot song root ⟨⟨.root, (flattenL fpre).length, []⟩, a1⟩ hstep rfl
+    have hdis : ¬ ((!a1.enabled) = true ∨ w1.disabled = true) := by simp [hen1, hws1.notDisabled]
+    simp only [runWriter] at hrun
+    rw [if_neg (by simpa using hdis), hst] at hrun
+    obtain ⟨it, hit⟩ : ∃ it : TraceItem, it = tItem note note := ⟨_, rfl⟩
+    have hio : itemOfRec (Out.hook note note, hookStack ⟨.root, (flattenL fpre).length, []⟩
+        ⟨.root, (flattenL fpre).length + 1, []⟩ (.hook note note)) = some it := by
+      rw [hit]; simp [itemOfRec, hookStack, hkind, insideLoop, insideJump]
+    rw [hio] at hrun
+    simp only [Option.map_some] at hrun
+    cases hh : hook song d fuel c1 w1 it with
+    | error x => rw [hh] at hrun; simp only at hrun; split at hrun <;> cases hrun
+    | ok r =>
+      obtain ⟨c', w'⟩ := r
+      rw [hh] at hrun
+      simp only at hrun
+      cases fuel with
+      | zero => simp [hook] at hh
+      | succ n =>
+        have hsh : ¬ (it.insideLoop ∨ it.insideJump) := by rw [hit]; simp [tItem]
+        have hh' := hh
+        rw [hook_succ_eq, if_neg hsh, prep_eq] at hh'
+        have ht : it.ev.type = ev_NOTE := by rw [hit]; exact hnote
+        rw [hookVis_note ht] at hh'
+        have hpar : it.ev.param = note.param := by rw [hit]
+        have hden : ¬ (w1.drumEnabled = true) := by rw [hdr1]; simp
+        simp only [hden, hind1, if_true, hpar] at hh'
+        have h1 : ¬ note.param < 0 := by omega
+        have h2 : ¬ note.param > 255 := by omega
+        simp only [Bool.false_eq_true, if_false, h1, h2, Except.ok.injEq, Prod.mk.injEq] at hh'
+        obtain ⟨rfl, rfl⟩ := hh'
+        obtain ⟨hinv', hmono'⟩ := (writerInv hpc (n + 1)).hook c1 w1 it c1 _ L P hinv1 hh
+        cases m with
+        | zero => simp [runWriter] at hrun
+        | succ m =>
+          rw [runWriter, if_pos (by simp)] at hrun
+          simp only [Except.ok.injEq, Prod.mk.injEq] at hrun
+          obtain ⟨rfl, rfl⟩ := hrun
+          refine ⟨ms, w1.restTime, w1.inLoop, he, hws1.restLt, ?_, hmono.trans hmono', by simpa [Mds.push] using hinv'⟩
+          rw [hit, hout]
+          have hm : mds_DMFINISH % 256 = mds_DMFINISH := by decide
+          simp [Mds.push, hm, List.append_assoc]
 
 end
 
